@@ -227,7 +227,7 @@ type histProg struct {
 }
 
 func genHistory(t *tape.Tape, uniq string) histProg {
-	switch t.Pick(3, 1, 3, 3, 1, 2, 2, 2, 1, 2, 1) {
+	switch t.Pick(3, 1, 3, 3, 1, 2, 2, 2, 1, 2, 1, 3) {
 	case 0:
 		return histProg{kind: "fail-at-step", faultAt: 1 + t.Intn(4),
 			src: "hx1 := S(1)\nhx2 := [S(2), hx1]\nhf := {|a| S(3); a}\nhf(S(4))\n\"done\".p\n"}
@@ -259,6 +259,14 @@ func genHistory(t *tape.Tape, uniq string) histProg {
 	case 9:
 		return histProg{kind: "raise-and-defer", faultAt: 1 + t.Intn(2),
 			src: "hd := {|a|\n  defer \"cleanup\".p\n  S(1)\n  raise Err.new(\"hist boom\") if a\n  S(2)\n}\nhd(true)\n"}
+	case 11:
+		// the same literal texts as some probes, in another context (other values, other positions)
+		return histProg{kind: "same-literal-text", faultAt: -1,
+			src: []string{
+				"step := 1\ninc := {|x, by: step| x + by}\ndescribe := {|o| o.name.uc}\ninc(1).p\ndescribe({name: \"a\"}).p\n",
+				"\n\nbase := 100\ncounter := <{|i, k: base| yield i + k if i < 3; recur(i + 1)}>\ncounter.new(0).A.p\nobj := {val: base, get: m{|d: base| .val + d}}\nobj.get.p\n",
+				"n := 7\n\"n + 1\".eval.p\n\"q := n\".evalEnv.p\nhalf := {|x| x / 0}\n1.try.{|x| half(x)}.err.p\n",
+			}[t.Intn(3)]}
 	default:
 		var sb strings.Builder
 		for i := 0; i < 20; i++ {
@@ -291,6 +299,9 @@ var probes = []probeProg{
 	{"callee-name", "S(1)\n", ""},
 	{"try", "5.try.{|n| n / 0}.A.p\n5.try.{|n| hx1}.err.p\n", ""},
 	{"evalenv", "\"a := 1\".evalEnv.p\n\"px\".eval\n", ""},
+	{"same-literal-func", "step := 10\ninc := {|x, by: step| x + by}\ninc(1).p\n\ndescribe := {|o| o.name.uc}\ndescribe({title: \"b\"})\n", ""},
+	{"same-literal-iter", "base := 5\ncounter := <{|i, k: base| yield i + k if i < 3; recur(i + 1)}>\ncounter.new(0).A.p\nobj := {val: base, get: m{|d: base| .val + d}}\nobj.get.p\nobj.nosuch\n", ""},
+	{"same-literal-eval", "n := 40\n\"n + 1\".eval.p\nhalf := {|x| x / 0}\n\nhalf(3)\n", ""},
 }
 
 // ---- stats ----
